@@ -90,6 +90,31 @@ func registerStd2(e *Engine) {
 	for _, n := range []string{"strings.IndexByte", "bytes.IndexByte", "internal/bytealg.IndexByte", "internal/bytealg.IndexByteString"} {
 		e.AddRule(n, idxByte)
 	}
+	// IndexAny with a concrete ASCII character set: the first byte of s that is in the
+	// set (multi-byte and invalid sequences never match an ASCII character)
+	indexAny := func(w *W, fn *ssa.Function, a []Value) Value {
+		chars, ok := concreteStr(StrV{B: w.bytesOf(a[1])})
+		if !ok {
+			w.unsupported(fn.String() + " with a symbolic character set")
+		}
+		for i := 0; i < len(chars); i++ {
+			if chars[i] >= 0x80 {
+				w.unsupported(fn.String() + " with a non-ASCII character set")
+			}
+		}
+		sb := w.bytesOf(a[0])
+		res := w.C.BVi(-1, 64)
+		for i := len(sb) - 1; i >= 0; i-- {
+			hit := w.C.False()
+			for j := 0; j < len(chars); j++ {
+				hit = w.C.Or(hit, w.C.Eq(sb[i], w.C.BVu(uint64(chars[j]), 8)))
+			}
+			res = w.C.Ite(hit, w.C.BVi(int64(i), 64), res)
+		}
+		return res
+	}
+	e.AddRule("strings.IndexAny", indexAny)
+	e.AddRule("bytes.IndexAny", indexAny)
 	e.AddRule("strings.LastIndex", func(w *W, fn *ssa.Function, a []Value) Value {
 		return w.lastIndexOf(w.bytesOf(a[0]), w.bytesOf(a[1]))
 	})
